@@ -26,3 +26,11 @@ func init() {
 		Rule: "one harness per (message kind, protocol version); a case is a feasible path = one shape (subset of optional parts, dynamic types, lengths) with every scalar field and byte symbolic; non-trivial = has symbolic branches or solver-discharged assertions",
 	})
 }
+
+func init() {
+	register(&PropCheck{
+		ID: "C02", Pkgs: []string{"frame"}, FnRe: `^VerifC02_`, Level: "model_checking",
+		Gen:  func(c *CheckCtx) error { return genFrameHarnesses(c, "VerifC02_Spec", `verifConformance(%q, %s)`) },
+		Rule: "one harness per (message kind, version): bytes of the real encoder vs. an independent reference encoder written from the specs, both executed symbolically on the same arbitrary version-valid frame; plus the header rejection harness over all 2^72 header byte strings",
+	})
+}
